@@ -107,14 +107,22 @@ def read_spec(draw, cfg: Cfg, field: str, version: int, allow_group=True):
             kinds += ["gtxns_self", "gtxns_gi"]
             if cfg.profile == "modelled":
                 kinds += ["rel_split"]
+                if version >= 5 and cfg.on("rot"):
+                    kinds += ["gtxns_rot"]
         if cfg.group_heavy:
             kinds = ["txn"] * 2 + ["gtxn"] * 3 + (["gtxns"] * 2 + ["rel"] * 4 + ["gtxns_self"] * 2 + ["gtxns_gi"] if version >= 3 else [])
             if version >= 3 and cfg.profile == "modelled":
                 kinds += ["rel_split"]
+                if version >= 5 and cfg.on("rot"):
+                    kinds += ["gtxns_rot"] * 2
     kind = draw(st.sampled_from(kinds))
     spec: Dict[str, Any] = {"kind": kind, "field": field}
     if kind in ("gtxn", "gtxns", "gtxns_gi"):
         spec["idx"] = draw(st.sampled_from([0, 0, 1, 1, 2, 3, 15]))
+    elif kind == "gtxns_rot":
+        # three candidate indices on the stack, rotated by cover 2 / uncover 2; gtxns takes the one on top
+        spec["cands"] = draw(st.lists(st.sampled_from([0, 1, 2, 3, 15]), min_size=3, max_size=3))
+        spec["rop"] = draw(st.sampled_from(["cover", "uncover"]))
     elif kind == "rel_split":
         # the index computation is spread over two blocks: the tool cannot attribute the read (opaque)
         spec["off"] = draw(st.sampled_from([1, 1, 2, 15]))
@@ -284,7 +292,7 @@ def stmts(draw, cfg: Cfg, mode: str, version: int, fields, subs: List[str], dept
             if subs and version >= 4:
                 kinds += ["passcond"]
         if cfg.profile == "modelled" and version >= 5 and cfg.on("rot"):
-            kinds += ["rot"]
+            kinds += ["rot"] * 3
         if (cfg.profile == "modelled" or cfg.xflag) and cfg.on("xconn"):
             kinds += ["xconn", "xconn"]
         kind = draw(st.sampled_from(kinds))
@@ -481,6 +489,17 @@ class Lower:
                 self.emit(I("gtxn", s["idx"], "GroupIndex"))
                 self.emit(I("gtxns", s["field"]))
                 self.feats.append("read_gtxns_via_gtxn_groupindex")
+            elif k == "gtxns_rot":
+                for v_ in s["cands"]:
+                    self.emit(I("int", v_))
+                self.emit(I(s["rop"], 2))
+                self.emit(I("gtxns", s["field"]))
+                # the two indices that were not used are dropped from under the value read
+                self.emit(I("swap"))
+                self.emit(I("pop"))
+                self.emit(I("swap"))
+                self.emit(I("pop"))
+                self.feats.append("read_gtxns_index_rotated")
             elif k == "rel_split":
                 first, second = I("txn", "GroupIndex"), I("int", s["off"])
                 if s.get("order"):
